@@ -275,12 +275,15 @@ Definition spec_parse (fd : bool) (rk : rootkind) (content : pystr) : parsed uni
   end.
 
 (* results of bytes.decode(charset) as observed by the harness: 0 = the intended text, 1 = UnicodeDecodeError,
-   3 = some other text, anything else / unknown charset = LookupError *)
+   3 = a mis-decoded text (the harness generates these only where the result is not well-formed XML),
+   anything else / unknown charset = LookupError *)
+(* stands for the text a wrongly guessed charset produces (UTF-16 read as latin-1, ...): not well-formed *)
+Definition garbage : pystr := [63].
 Definition dec_of (content : pystr) (results : list (pystr * N)) (c : pystr) : dec :=
   match find (fun x => eqs (fst x) c) results with
   | Some (_, 0) => DecOk content
   | Some (_, 1) => DecUnicodeError
-  | Some (_, 3) => DecOk [63]              (* decodes, but to another text: must not be the one consulted *)
+  | Some (_, 3) => DecOk garbage           (* decodes, but to a mis-decoded text (wrong charset guessed) *)
   | _ => DecLookupError
   end.
 
@@ -290,7 +293,8 @@ Definition corr_case (fd : bool) (x : method * attack * rootkind * option pystr 
   : bool * (N * N) * N * pystr :=
   let '(m, a, rk, ct, results) := x in
   let content := render a in
-  let rd := read_xml unit (spec_parse fd rk) (RawOk []) (fun _ => dec_of content results)
+  let parser := fun c => if eqs c garbage then PParseError else spec_parse fd rk c in
+  let rd := read_xml unit parser (RawOk []) (fun _ => dec_of content results)
                      (charsets ct (str "utf-8")) in
   match serve unit unit m None rd (fun _ s => (s, handled_marker)) tt with
   | (_, Some r) => (wf_attack a, fingerprint content, r_status r, r_body r)
